@@ -191,6 +191,8 @@ struct Tr<'a> {
     reader_owned: bool,
     /// READ mode (t6r.rs): the function records `cell.store(v)` effects; name of the list variable
     rstores: Option<String>,
+    /// READ mode (t6r.rs): the function calls external layer constructors (parameter `ext`)
+    uses_ext: bool,
 }
 
 fn path_last(p: &Path) -> String {
@@ -494,6 +496,7 @@ impl<'a> Tr<'a> {
             s: t6w::SState::default(),
             reader_owned: false,
             rstores: None,
+            uses_ext: false,
         }
     }
 
@@ -526,6 +529,9 @@ impl<'a> Tr<'a> {
 
     /// Light type synthesis: the Lean type of a Rust expression when it is evident, else `None`.
     fn type_of(&self, e: &Expr) -> Option<String> {
+        if let Some(t) = self.t6r_type_of(e) {
+            return Some(t);
+        }
         if self.mode == Mode::S {
             if let Some(t) = self.s_type_of(e) {
                 return Some(t);
@@ -727,6 +733,9 @@ impl<'a> Tr<'a> {
                     "HashMap" if args.len() == 2 => Ok(format!("(Rs.HashMap {} {})", self.ty(args[0])?, self.ty(args[1])?)),
                     "Arc" if args.len() == 1 => self.ty(args[0]),
                     "Take" => Ok("Rs.Take".into()),
+                    "InvalidPassword" => Ok("Rs.InvalidPassword".into()),
+                    "ZipCryptoReaderValid" if self.reg.enums.contains_key("ZipCryptoValidator") => Ok("(Rs.ZcValid Gen.ZipCryptoValidator)".into()),
+                    "AesReaderValid" if self.reg.enums.contains_key("AesMode") => Ok("(Rs.AesValid Gen.AesMode)".into()),
                     "String" | "str" => Ok("Bytes".into()),
                     n if self.reg.enums.contains_key(n) || self.reg.structs.contains(n) => Ok(format!("Gen.{n}")),
                     n => Err(format!("unsupported type {n}")),
@@ -857,6 +866,9 @@ impl<'a> Tr<'a> {
                     if name == "None" {
                         return Ok("none".into());
                     }
+                    if name == "InvalidPassword" {
+                        return Ok("Rs.InvalidPassword.mk".into());
+                    }
                     return Ok(name);
                 }
                 // qualified path: module::CONST, Enum::Variant, Self::Variant
@@ -918,6 +930,7 @@ impl<'a> Tr<'a> {
                 self.tail = tail;
                 self.if_expr(i)
             }
+            Expr::Match(m) if self.t5() && t6r::match_escapes(self.reg, m) => self.t6r_match_elem(m, exp),
             Expr::Match(m) => {
                 self.expect = exp;
                 self.tail = tail;
@@ -933,6 +946,7 @@ impl<'a> Tr<'a> {
                 self.expect = exp;
                 self.try_expr(&t.expr)
             }
+            Expr::Struct(s) if self.t6r_is_variant_struct(s) => self.t6r_variant_struct(s),
             Expr::Struct(s) => {
                 let name = path_last(&s.path);
                 let name = if name == "Self" { self.self_ty.clone().unwrap_or_default() } else { name };
@@ -1831,6 +1845,9 @@ impl<'a> Tr<'a> {
             Expr::MethodCall(m) => {
                 let name = m.method.to_string();
                 let recv_id = path_ident(&m.receiver);
+                if let Some(r) = self.t6r_ext_try(m)? {
+                    return Ok(r);
+                }
                 // READ mode: reader.read_uNN::<LittleEndian>()? / read_exact(&mut buf)? / seek(..)? / stream_position()?
                 if let Some((act, ty, assign)) = self.reader_op(m)? {
                     return Ok(match assign {
@@ -2184,6 +2201,12 @@ impl<'a> Tr<'a> {
             args.push(self.expr(a)?);
         }
         let a = if args.is_empty() { String::new() } else { format!(" {}", args.join(" ")) };
+        let lean = if t6r::is_ext_fn(&lean) {
+            self.uses_ext = true;
+            format!("{lean} ext")
+        } else {
+            lean
+        };
         Ok(Some((format!("{lean}{a}"), fi.ret.clone())))
     }
 
@@ -2584,7 +2607,10 @@ impl<'a> Tr<'a> {
             Expr::While(w) => self.while_loop(w),
             Expr::If(i) if i.else_branch.is_none() || true => {
                 // statement-level if: branches are do-sequences (mutation and early return propagate)
-                if let Expr::Let(_) = &*i.cond {
+                if let Expr::Let(l) = &*i.cond {
+                    if self.t5() {
+                        return self.t6r_if_let(i, l);
+                    }
                     return Err("if let".into());
                 }
                 let c = self.expr(&i.cond)?;
@@ -3213,6 +3239,10 @@ fn sig_info(tr: &Tr, sig: &Signature, impl_generics: Option<&Generics>) -> R<(Fn
         _ => None,
     };
     // `x: &mut Struct` (a translated structure) in a plain ZipResult function → P mode
+    if tparam.is_none() && !impl_reader && t6r::has_take_param(sig) {
+        // a `Take` over the device: the function does I/O on it through the layers it builds
+        read = true;
+    }
     if zr.is_some() && tparam.is_none() && !impl_reader {
         let mut found: Option<(usize, String)> = None;
         let mut k = 0;
@@ -3344,6 +3374,12 @@ fn translate_fn(reg: &Registry, failed: &HashSet<String>, self_ty: Option<&str>,
             s.push('\n');
         }
         let ps = if params.is_empty() { String::new() } else { format!(" {}", params.join(" ")) };
+        let ps = if tr.uses_ext {
+            t6r::mark_ext_fn(lean_name);
+            format!(" (ext : Rs.ReadExt Gen.ZipCryptoValidator Gen.AesMode){ps}")
+        } else {
+            ps
+        };
         if fi.mode == Mode::R && tr.rstores.is_some() {
             writeln!(s, "def {lean_name}{ps} : Model.M ({ret} × Rs.Stores) := do").unwrap();
         } else if fi.mode == Mode::R {
@@ -3522,6 +3558,22 @@ fn main() {
                             if e.ident == name && cfg_on(&e.attrs) {
                                 let vs = e.variants.iter().filter(|v| cfg_on(&v.attrs)).map(|v| (v.ident.to_string(), !matches!(v.fields, Fields::Unit))).collect();
                                 reg.enums.insert(name.clone(), vs);
+                                t6r::register_variant_fields(e);
+                            }
+                        }
+                    }
+                }
+                // an enum that another generated module declares (`lenum` of the layer translation): known here, not emitted
+                "xenum" => {
+                    for ast in asts.values() {
+                        let mut all2 = vec![];
+                        find_items(&ast.items, &mut all2);
+                        for it in &all2 {
+                            if let Item::Enum(e) = it {
+                                if e.ident == name && cfg_on(&e.attrs) {
+                                    let vs = e.variants.iter().filter(|v| cfg_on(&v.attrs)).map(|v| (v.ident.to_string(), !matches!(v.fields, Fields::Unit))).collect();
+                                    reg.enums.insert(name.clone(), vs);
+                                }
                             }
                         }
                     }
@@ -3688,6 +3740,7 @@ fn main() {
                                 let mut discr = vec![];
                                 let mut next: u64 = 0;
                                 let mut fieldless = true;
+                                let mut opaque_payload = false;
                                 for v in e.variants.iter().filter(|v| cfg_on(&v.attrs)) {
                                     match &v.fields {
                                         Fields::Unit => {
@@ -3705,10 +3758,20 @@ fn main() {
                                             let binders: Vec<String> = ts.iter().enumerate().map(|(i, t)| format!("(a{i} : {t})")).collect();
                                             writeln!(s, "  | {} {}", v.ident, binders.join(" ")).unwrap();
                                         }
-                                        Fields::Named(_) => return Err("enum variant with named fields".into()),
+                                        Fields::Named(n) => {
+                                            fieldless = false;
+                                            opaque_payload = true;
+                                            let mut binders = vec![];
+                                            for f in &n.named {
+                                                binders.push(format!("({} : {})", f.ident.as_ref().unwrap(), tr.ty(&f.ty)?));
+                                            }
+                                            writeln!(s, "  | {} {}", v.ident, binders.join(" ")).unwrap();
+                                        }
                                     }
                                 }
-                                s += "  deriving DecidableEq, Repr\n";
+                                if !opaque_payload {
+                                    s += "  deriving DecidableEq, Repr\n";
+                                }
                                 if fieldless {
                                     writeln!(s, "\ndef Gen.{name}.discr : Gen.{name} → UInt64").unwrap();
                                     for (v, d) in &discr { writeln!(s, "  | .{v} => {d}").unwrap(); }
@@ -3811,6 +3874,12 @@ fn main() {
                         }
                         Err("not found".into())
                     }
+                    "xenum" => {
+                        if reg.enums.contains_key(name) {
+                            return Ok((format!("-- enum `{name}`: declared by another generated module (imported)\n"), String::from("-"), 0, 0));
+                        }
+                        Err("not found".into())
+                    }
                     "errfn" => {
                         for it in &all {
                             if let Item::Fn(f) = it {
@@ -3854,7 +3923,7 @@ fn main() {
         if fo.body.contains("Rs.S.") {
             writeln!(text, "import ZipVerif.Basic.RsS").unwrap();
         }
-        if fo.body.contains("Rs.Vec") || fo.body.contains("Rs.HashMap") || fo.body.contains("Rs.R.forRange") || fo.body.contains("Rs.Arc") || fo.body.contains("Rs.Take") || fo.body.contains("Rs.Stores") {
+        if fo.body.contains("Rs.Vec") || fo.body.contains("Rs.HashMap") || fo.body.contains("Rs.R.forRange") || fo.body.contains("Rs.Arc") || fo.body.contains("Rs.Take") || fo.body.contains("Rs.Stores") || fo.body.contains("Rs.ReadExt") || fo.body.contains("Rs.InvalidPassword") {
             writeln!(text, "import ZipVerif.Basic.RsGlue").unwrap();
         }
         if fo.body.contains("Rs.Aes") || fo.body.contains("Rs.Hmac") {
